@@ -920,3 +920,18 @@ def share_arena_contracts(ctx, rule, failing_paths=False):
     for i in sub.insts:
         i.rule = rule
         ctx.insts.append(i)
+
+
+def share_from(ctx, module, rule, prefixes):
+    """instances of another property's module (selected by site prefix) as instances of `rule` of this property"""
+    import importlib
+    from ..core import Ctx
+    mod = importlib.import_module('affcheck.rules.' + module)
+    sub = Ctx(ctx.facts, ctx.tier, ctx.prop)
+    mod.run(sub)
+    seen = set()
+    for i in sub.insts:
+        if i.site.startswith(tuple(prefixes)) and (i.site, i.what) not in seen:
+            seen.add((i.site, i.what))
+            i.rule = rule
+            ctx.insts.append(i)
